@@ -1,5 +1,5 @@
 """C12  Fq2 arithmetic is arithmetic in Fq[u]/(u^2+2)."""
-from .. import gen, rm
+from .. import gen, rm, points
 from ..mon import check, f2hex, is_abnormal
 from ..rm import q, R, h32, f2add, f2sub, f2mul, f2neg, F2
 
@@ -7,7 +7,7 @@ ID = 'C12'
 EXES = ['release']
 RULE = ('each event is one public Fq2 call (six operator forms of + - *, neg, new/real/imaginary, is_even, is_zero, to_slice, '
         'from_slice, ==), a ring-axiom instance evaluated by the library on both sides, the internal squaring (hook and through '
-        'G2 doubling / mixed addition on arbitrary coordinates) or the interleaved sum-of-products multiplier itself (hook), on '
+        'G2 doubling / mixed addition of points of the twist whose x-coordinates come from the limb classes) or the interleaved sum-of-products multiplier itself (hook), on '
         'components from limb-pattern classes incl. all-(q-1-d) operands; judged against pairs of Python integers with u^2 = -2. '
         'The number of 2^256 carries of the exact accumulator (sum A_i*B_i + k*q)/2^256 is computed by the model per '
         'multiplication and reported. distinct = distinct (op, operands); non-trivial = some operand has two non-zero components')
@@ -164,16 +164,24 @@ def run(ctx, spec):
             lines.append('_ fq2.mul.rr %s %s' % (f2hex(x), f2hex(x)))
             exp.append(('fq2.mul.rr', 'ok ' + f2hex(f2mul(x, x)), ('mul', x, x), nt(x)))
         elif kind == 'g2':
-            # doubling and chord formulas never use the curve constant: any (x, y) with y != 0 is a legal input
-            if y == (0, 0):
-                y = (1, 1)
-            P = (x, y)
+            # points ON the twist (not necessarily in the subgroup) whose x comes from the limb classes: the squaring and the
+            # mixed multiplications inside doubling / addition see boundary Fq2 values; on-curve so that formulas which use
+            # the curve constant stay legitimate
+            P = None
+            for _try in range(8):
+                P = points.lift_x(2, x)
+                if P is not None:
+                    break
+                x = gen.fq2_value(rng)[0]
+            if P is None:
+                continue
+            x, y = P
             lit = f2hex(x) + f2hex(y) + f2hex((1, 0))
             lines.append('_ g2.add %s %s' % (lit, lit))
             exp.append(('sqr.g2double', ('aff', rm.cadd(F2, P, P)), ('g2dbl', x, y), nt(x, y)))
-            x2 = z
-            y2 = rand2(rng)
-            if x2 != x:
+            Q2 = points.lift_x(2, z)
+            if Q2 is not None and Q2[0] != x:
+                x2, y2 = Q2
                 lam = rand2(rng) if rng.random() < 0.5 else (1, 0)
                 if lam == (0, 0):
                     lam = (1, 0)
